@@ -494,8 +494,10 @@ def model_task(task, ybin, root, prop):
             protos0[0].steps.append(("steerpodi", M.Vec(M.Named("SteerPodInner")), False))
             protos0[0].steps.append(("steerpodp", M.Vec(M.Named("SteerPodPacked"), 2), False))
             protos0[0].steps.append(("steerpodn", M.Vec(M.Named("SteerPodNested")), True))
+    # the time zone the Python nodes run in: west and east of Greenwich, with and without minutes, with daylight saving
+    pkg.process_tz = rng.fork("tz").choice(["UTC", "UTC", "PST8", "NST3:30", "JST-9", "CET-1CEST", "America/New_York", "Pacific/Kiritimati"])
     model = P.PyModel(pkg, ybin, root, want_cpp=want_cpp, cpp_opts=C.CPP_OPTS)
-    stats, viols, cases = {"models_with_cpp": 1 if want_cpp else 0}, [], []
+    stats, viols, cases = {"models_with_cpp": 1 if want_cpp else 0, "python_process_tz_%s" % pkg.process_tz: 1}, [], []
     try:
         cm = None
         if want_cpp:
